@@ -56,6 +56,9 @@ type caseOutcome struct {
 	Hang            string // a driven call never returned: innermost repository function of the driver goroutine
 	HangEvent       string
 	LateUnconfirmed int
+	Spurious        int                      // timeouts accounted by the environment that no script asked for (lab too slow)
+	FailAt          map[int]envlab.Behaviour // two-attempt cases: what the hook task "t" does in occurrence k
+	SecondDone      bool                     // two-attempt cases: the second attempt was driven
 }
 
 func runC08() {
